@@ -44,7 +44,12 @@ func cmdVerify(args []string) {
 	}
 	var u *Unit
 	for _, x := range w.Units {
-		if strings.HasSuffix(x.Pkg.PkgPath, strings.TrimPrefix(args[0], "./")) || x.Short == args[0] {
+		if x.Short == args[0] {
+			u = x
+		}
+	}
+	for _, x := range w.Units {
+		if u == nil && strings.HasSuffix(x.Pkg.PkgPath, "/"+strings.TrimPrefix(args[0], "./")) {
 			u = x
 		}
 	}
